@@ -131,10 +131,11 @@ theorem merge_ok (fs : FS) (subdirs : List String) (out : String) (fs' : FS) (re
             similar := ms1, whitening := ms2, whiteningInv := ms3 }, ?_, ?_, ?_⟩
   · exact ⟨l1, l3, l4, l5, l6a, l7, l8, l9, l10, l11, l12, l13, l14, l15, l16, l17⟩
   · refine ⟨by simpa using hne, hnesc, hnest, maxOK_ok _ _ k10, maxOK_ok _ _ k11, concatOK_ok _ _ k3,
-      concatOK_ok _ _ k4, concatOK_ok _ _ k5, concatOK_ok _ _ k6a, ?_, ?_, ?_⟩
+      concatOK_ok _ _ k4, concatOK_ok _ _ k5, concatOK_ok _ _ k6a, ?_, ?_, ?_, ?_⟩
     · rw [n4, spikeOrder_length]
     · rw [n5, spikeOrder_length]
     · rw [← shiftIds_flatten_length, n6a, spikeOrder_length]
+    · exact k12
   · -- contents of the output directory
     intro hempty
     have hread : ∀ n, fs'.read (out, n) = s18.1.read (out, n) := by
